@@ -104,6 +104,10 @@ class TV:
         t = time.time()
         r = self.check(list(hyps) + [z3.Not(g)])
         secs = time.time() - t
+        if z3.is_false(g) and r == "sat":
+            # a structural fact about the emitted text on a feasible path (not a solver-found data corner case)
+            self.results.append(Result(family, oid, "refuted", what, {}, 0.0, line))
+            return False
         if r == "unsat":
             self.results.append(Result(family, oid, "proved", what, None, secs, line))
             return True
